@@ -1,0 +1,104 @@
+//! Verification hooks (only compiled with the off-by-default `verif-hooks` feature).
+//!
+//! * `sched_point(site)`: schedule points placed between critical sections of the
+//!   lock-free / token / executor code. With no callback installed it is one relaxed
+//!   load and a not-taken branch. A harness installs a callback to park, yield or
+//!   count at these points; the library never depends on what the callback does.
+//! * `forced_cpu_tier()`: lets a harness (or Miri, which cannot execute `cpuid`)
+//!   force the feature set reported by `system::get_cpu_features()`.
+
+use std::sync::atomic::{AtomicPtr, Ordering};
+
+static SCHED_HOOK: AtomicPtr<()> = AtomicPtr::new(std::ptr::null_mut());
+
+/// Install (or clear) the schedule-point callback.
+pub fn set_sched_hook(f: Option<fn(u32)>) {
+    let p = match f {
+        Some(f) => f as *mut (),
+        None => std::ptr::null_mut(),
+    };
+    SCHED_HOOK.store(p, Ordering::SeqCst);
+}
+
+/// Schedule point. Never called while a lock is held.
+#[inline]
+pub fn sched_point(site: u32) {
+    let p = SCHED_HOOK.load(Ordering::Relaxed);
+    if !p.is_null() {
+        // SAFETY: the only non-null values ever stored are `fn(u32)` pointers.
+        let f: fn(u32) = unsafe { std::mem::transmute::<*mut (), fn(u32)>(p) };
+        f(site);
+    }
+}
+
+/// Site identifiers (stable numbers; the harness refers to them by value).
+pub mod site {
+    // secure_pool::LockFreeStack
+    pub const SP_PUSH_AFTER_HEAD_LOAD: u32 = 100;
+    pub const SP_POP_AFTER_HEAD_LOAD: u32 = 101;
+    pub const SP_POP_AFTER_NEXT_READ: u32 = 102;
+    pub const SP_POP_AFTER_CAS: u32 = 103;
+    pub const SP_PUSH_AFTER_CAS: u32 = 104;
+    // SecureMemoryPool allocate / deallocate
+    pub const SP_ALLOC_AFTER_LOCAL: u32 = 110;
+    pub const SP_ALLOC_AFTER_GLOBAL: u32 = 111;
+    pub const SP_DEALLOC_BEFORE_RETURN: u32 = 112;
+    // lockfree_pool fast bins
+    pub const LF_ALLOC_AFTER_HEAD_LOAD: u32 = 200;
+    pub const LF_ALLOC_AFTER_NEXT_READ: u32 = 201;
+    pub const LF_ALLOC_AFTER_CAS: u32 = 202;
+    pub const LF_FREE_AFTER_HEAD_LOAD: u32 = 210;
+    pub const LF_FREE_AFTER_LINK: u32 = 211;
+    pub const LF_FREE_AFTER_CAS: u32 = 212;
+    // five_level_pool LockFreePool
+    pub const FL_ALLOC_AFTER_HEAD_LOAD: u32 = 300;
+    pub const FL_ALLOC_AFTER_NEXT_READ: u32 = 301;
+    pub const FL_FREE_AFTER_HEAD_LOAD: u32 = 310;
+    pub const FL_FREE_AFTER_LINK: u32 = 311;
+    // fixed_capacity_pool
+    pub const FC_ALLOC_AFTER_HEAD_LOAD: u32 = 400;
+    pub const FC_ALLOC_AFTER_NEXT_READ: u32 = 401;
+    pub const FC_FREE_AFTER_HEAD_LOAD: u32 = 410;
+    pub const FC_FREE_AFTER_LINK: u32 = 411;
+    // version_sync
+    pub const VS_WRITER_AFTER_CHECK: u32 = 500;
+    pub const VS_WRITER_AFTER_VERSION: u32 = 501;
+    pub const VS_WRITER_AFTER_INCREMENT: u32 = 502;
+    pub const VS_READER_AFTER_VERSION: u32 = 510;
+    pub const VS_READER_AFTER_INCREMENT: u32 = 511;
+    pub const VS_ADVANCE_AFTER_LOAD1: u32 = 520;
+    pub const VS_ADVANCE_AFTER_LOAD2: u32 = 521;
+    pub const VS_ADVANCE_AFTER_STORE: u32 = 522;
+    pub const VS_RELEASE_AFTER_DECREMENT: u32 = 530;
+    // work_stealing
+    pub const WS_LOOP_TOP: u32 = 600;
+    pub const WS_IDLE_POLL: u32 = 601;
+    pub const WS_BEFORE_BALANCE: u32 = 602;
+    pub const WS_SUBMIT_AFTER_CHECK: u32 = 610;
+}
+
+/// CPU tier a harness may force on `system::get_cpu_features()`.
+#[derive(Debug, Clone, Copy, PartialEq, Eq)]
+pub enum CpuTier {
+    /// No SIMD / BMI / POPCNT features reported.
+    Scalar,
+    /// SSE4.1/4.2 + POPCNT only.
+    Sse42,
+    /// Up to AVX2 + BMI1/2 (no AVX-512).
+    Avx2,
+}
+
+/// Tier to force, if any: always `Scalar` under Miri (which cannot run `cpuid`),
+/// otherwise taken from the environment variable `ZIPORA_VERIF_CPU_TIER`
+/// (`scalar` | `sse42` | `avx2`; anything else / unset = native detection).
+pub fn forced_cpu_tier() -> Option<CpuTier> {
+    if cfg!(miri) {
+        return Some(CpuTier::Scalar);
+    }
+    match std::env::var("ZIPORA_VERIF_CPU_TIER").ok().as_deref() {
+        Some("scalar") => Some(CpuTier::Scalar),
+        Some("sse42") => Some(CpuTier::Sse42),
+        Some("avx2") => Some(CpuTier::Avx2),
+        _ => None,
+    }
+}
